@@ -572,7 +572,8 @@ C16(c, o) ==
   THEN [ dom |-> TRUE, m |-> MemoFor(c),
          fails |-> { IF o.ret.kind = "panic" THEN "generation panicked on a valid source (" \o o.ret.msg \o "): SOURCE cannot hold this text"
                      ELSE "the returned text is not a Rust module, SOURCE cannot be evaluated: " \o (IF Has(o, "parse_err") THEN o.parse_err ELSE "") } ] ELSE
-  IF ~(ParseOk(o) /\ Projected(o)) THEN [ dom |-> FALSE, fails |-> {}, m |-> MemoFor(c) ] ELSE
+  (* whenever a module comes back - even for a source the front end would refuse - its SOURCE must be the input *)
+  IF ~Projected(o) THEN [ dom |-> FALSE, fails |-> {}, m |-> MemoFor(c) ] ELSE
   LET m == MemoFor(c)
       src == o.out.source
       inc == Has(c.opts, "include")
